@@ -24,6 +24,20 @@ Proof.
 Qed.
 Print Assumptions C04_parser_reports_denotation.
 
+(* the same with a FORCED language (wbxml_parser_set_language, wbxml2xml -l, what wbxml_tree_from_wbxml passes on):
+   FULL.  The public identifier is read and not consulted; the language is the table's first entry with the
+   forced id (Spec.denote_with tbl (Some L)). *)
+Theorem C04_parser_reports_denotation_forced : forall (tbl : list lang) (L : lang) (d : wdoc) (evs : list event),
+  l_id L <> 0 -> find (fun x => l_id x =? l_id L) tbl = Some L ->
+  denote_with tbl (Some L) d = Some evs ->
+  parse_with tbl (l_id L) 0 (S (length (serialize d))) (serialize d) = POk evs.
+Proof.
+  intros tbl L d evs Hid Hfind H.
+  apply (parse_denote_with tbl (fun l _ _ => typed_wv_agree_proved) typed_datetime_agree_proved (l_id L) (Some L) d evs); [|exact H].
+  split; [reflexivity|]. split; [exact Hid|exact Hfind].
+Qed.
+Print Assumptions C04_parser_reports_denotation_forced.
+
 Theorem C04_wf_documents_parse : forall tbl d, wf tbl d ->
   exists evs, denote tbl d = Some evs /\ parse tbl (S (length (serialize d))) (serialize d) = POk evs.
 Proof.
